@@ -4,7 +4,7 @@ usage: tools/import_round.py [--round N] <ID> [<ID>...]     (default round 2: /t
 import json, os, re, shutil, sys
 args = sys.argv[1:]
 rnd = "2"
-ORIGIN = {"5": "told that a harness of many small random cases exists and asked for scale thresholds, fast paths, three-way conditions, call sequences / state, dropped plumbing on one call path, error and platform paths (tools/agent_prompts/round5_template.txt)"}
+ORIGIN = {"6": "told that a harness exists that covers sizes, every entry point, fault / crash injection on other file systems, object reuse, fresh-process concurrency and locales, and asked for what even that misses: the environment (variables, permissions, cwd, terminals, files changing underfoot), exact boundary values, three-way interactions, interrupts other than OSError, results that differ only in what the obvious comparison ignores (tools/agent_prompts/round6_template.txt)", "5": "told that a harness of many small random cases exists and asked for scale thresholds, fast paths, three-way conditions, call sequences / state, dropped plumbing on one call path, error and platform paths (tools/agent_prompts/round5_template.txt)"}
 if args and args[0] == "--round":
     rnd = args[1]
     args = args[2:]
